@@ -147,7 +147,7 @@ def c21_cmp(R):
     ms = util.methods_of(cls)
     total = 0
     for name, rel in CMP_REL.items():
-        fn = ms.get(name)
+        fn = tree.func_inlined(SI, f"StridedInterval.{name}", exclude=("_signed_bounds", "_unsigned_bounds")) if name in ms else None
         R.need(fn is not None, f"StridedInterval.{name} missing")
         pl = _piece_loops(fn)
         R.need(pl is not None, f"{name}: iteration over pairs of pieces not found")
@@ -215,7 +215,7 @@ def c21_bounds(R):
     cls = tree.cls(SI, "StridedInterval")
     ms = util.methods_of(cls)
     for name in CMP_REL:
-        fn = ms[name]
+        fn = tree.func_inlined(SI, f"StridedInterval.{name}", exclude=("_signed_bounds", "_unsigned_bounds"))
         want = "_signed_bounds" if name.startswith("S") else "_unsigned_bounds"
         o = positional_params(fn)[1]
         src = {}
@@ -785,7 +785,17 @@ def c24_dispatch(R):
             construct="BackendVSA.And")
     orr = d.handler("Or").fn
     t = ast.unparse(orr)
-    R.check(util.Frags(orr).all("first = args[0]", "first = first.union(o)", "return first") or "operator.__or__" in t, m, orr, "BackendVSA.Or joins / Kleene-ors its operands", "BackendVSA.Or changed",
+    reduces = [
+        c
+        for c in ast.walk(orr)
+        if isinstance(c, ast.Call)
+        and (dotted(c.func) or "").split(".")[-1] == "reduce"
+        and c.args
+        and isinstance(c.args[0], ast.Lambda)
+        and len(c.args[0].args.args) == 2
+        and ast.unparse(c.args[0].body) == f"{c.args[0].args.args[0].arg}.union({c.args[0].args.args[1].arg})"
+    ]
+    R.check(util.Frags(orr).all("first = args[0]", "first = first.union(o)", "return first") or bool(reduces) or "operator.__or__" in t, m, orr, "BackendVSA.Or joins / Kleene-ors its operands", "BackendVSA.Or changed",
             construct="BackendVSA.Or")
 
 
@@ -854,7 +864,7 @@ def c24_if(R):
 def c24_anno(R):
     tree = R.tree
     m = tree.mod(BV)
-    fn = tree.func(BV, "BackendVSA.apply_annotation")
+    fn = tree.func_inlined(BV, "BackendVSA.apply_annotation")
     ps = positional_params(fn)
     o, a = ps[1], ps[2]
     built = [c for c in _calls(fn) if dotted(c.func) == "StridedInterval"]
@@ -974,7 +984,7 @@ def c25_info(R):
             f"comparison_info[{op!r}] is {got.get(op)}; {op} is (lt={want[0]}, eq={want[1]}, unsigned={want[2]})",
             construct=f"comparison_info[{op!r}] = {got.get(op)}",
         )
-    hc = tree.func(BAL, "Balancer._handle_comparison")
+    hc = tree.func_inlined(BAL, "Balancer._handle_comparison", exclude=("_add_upper_bound", "_add_lower_bound", "_min", "_max", "_range"))
     F = util.Frags(hc)
     # the unpacking fixes which local holds which column of the table; the uses below have to agree with it
     R.need(F.has("is_lt, is_equal, is_unsigned = self.comparison_info[truism.op]"), "_handle_comparison no longer unpacks comparison_info[truism.op] into three locals")
@@ -1044,7 +1054,7 @@ def c25_info(R):
 def c25_bounds(R):
     tree = R.tree
     m = tree.mod(BAL)
-    hc = tree.func(BAL, "Balancer._handle_comparison")
+    hc = tree.func_inlined(BAL, "Balancer._handle_comparison", exclude=("_add_upper_bound", "_add_lower_bound", "_min", "_max", "_range"))
     F = util.Frags(hc)
     R.need(F.has("is_lt, is_equal, is_unsigned = self.comparison_info[truism.op]"), "_handle_comparison no longer unpacks comparison_info[truism.op] into three locals")
     for c in _calls(hc):
@@ -1122,10 +1132,13 @@ def c25_bounds(R):
 def c25_unpack(R):
     tree = R.tree
     m = tree.mod(BAL)
-    un = tree.func(BAL, "Balancer._unpack_truisms_not")
+    # the dispatcher with its per-connective helpers inlined: it does not matter whether And / Not / Or are
+    # handled in helpers of their own or in the arms of the dispatcher
+    un = tree.func_inlined(BAL, "Balancer._unpack_truisms")
+    top = util.value_arms(un, "c.op")
     arms = {}
-    for st in un.body:
-        if isinstance(st, ast.If):
+    for st in ast.walk(un):
+        if isinstance(st, ast.If) and st.body and isinstance(st.body[0], ast.Return) and st.body[0].value is not None:
             arms[ast.unparse(st.test)] = st.body[0].value
     R.check(
         arms.get("c.args[0].op == 'And'") is not None and util.alpha_eq(arms["c.args[0].op == 'And'"], "Balancer._unpack_truisms(claripy.Or(*[claripy.Not(a) for a in c.args[0].args]))", un),
@@ -1143,19 +1156,24 @@ def c25_unpack(R):
         "Not(Or) is no longer unpacked as the And of the negations",
         construct="_unpack_truisms_not Or",
     )
-    uo = tree.func(BAL, "Balancer._unpack_truisms_or")
-    FO = util.Frags(uo)
+    FO = util.Frags(un)
     R.check(
         FO.has("vals = [claripy.backends.vsa.is_false(v) for v in c.args]") and FO.has("vals.count(False) == 1") and FO.has("c.args[vals.index(False)]"),
         m,
-        uo,
+        un,
         "an Or is unpacked only into its single not-definitely-false disjunct",
         "_unpack_truisms_or changed: a disjunction may only be narrowed when exactly one disjunct can hold",
         construct="_unpack_truisms_or",
     )
-    ua = tree.func(BAL, "Balancer._unpack_truisms_and")
-    R.check(util.has_frag(ua, "set.union(*[Balancer._unpack_truisms(a) for a in c.args])", ua), m, ua, "And -> union over every conjunct",
-            "_unpack_truisms_and no longer unions over every conjunct", construct="_unpack_truisms_and")
+    and_arm = [st for st in top.get("'And'", []) if isinstance(st, ast.Return) and st.value is not None]
+    R.check(
+        len(and_arm) == 1 and util.alpha_eq(and_arm[0].value, "set.union(*[Balancer._unpack_truisms(a) for a in c.args])", un),
+        m,
+        un,
+        "And -> union over every conjunct",
+        "_unpack_truisms_and no longer unions over every conjunct",
+        construct="_unpack_truisms_and",
+    )
     rc = tree.func(BAL, "Balancer._reverse_comparison")
     FC = util.Frags(rc)
     R.check(FC.has("new_op = opposites.get(a.op, None)") and FC.has("op = getattr(BV, new_op)") and FC.has("op(*a.args[::-1])"), m, rc, "reversal = opposite op on swapped operands",
@@ -1501,7 +1519,7 @@ def _vsa_fact_subjects(fn):
 @rule(
     "C25.valid",
     props=("C25",),
-    floor=10,
+    floor=8,
     family="GRD",
     desc="every rewrite `f(x) OP c  ->  x OP g(c)` of the balancer is an implication: the rebuilt comparison is "
     "returned only under a restriction of OP to the operators for which the rewrite holds for every x, or under a "
@@ -1597,7 +1615,7 @@ def c25_valid(R):
                 f"unsatisfiable)",
                 construct=f"{name}: rebuilt comparison for {sorted(allowed - valid_ops)} under [{'; '.join(h[:60] for h in held)}]",
             )
-    R.need(n >= 10, f"only {n} balance rewrites found")
+    R.need(n >= 8, f"only {n} balance rewrites found")
 
 
 # ----------------------------------------------------------------------------- C21: wrap-around discipline inside StridedInterval
@@ -1636,7 +1654,7 @@ def _nowrap_fact(t, pol, recv):
 @rule(
     "C21.wrapdiff",
     props=("C21", "C24"),
-    floor=2,
+    floor=1,
     family="GRD",
     desc="inside StridedInterval an *ordering* test on the raw span `x.upper_bound - x.lower_bound` also bounds it below "
     "by 0 (same comparison chain) or is dominated by a no-wrap fact: intervals wrap (lower > upper), the raw span of a "
@@ -1673,13 +1691,13 @@ def c21_wrapdiff(R):
                     f"and satisfies the test, so the shortcut below it treats an interval that covers almost the whole "
                     f"ring as a short one and returns too few values",
                 )
-    R.need(n >= 2, f"only {n} ordering tests on a raw span found in StridedInterval")
+    R.need(n >= 1, f"only {n} ordering tests on a raw span found in StridedInterval")
 
 
 @rule(
     "C21.narrow",
     props=("C21", "C24"),
-    floor=4,
+    floor=2,
     family="GRD",
     desc="truncation shortcuts of StridedInterval (a method that builds an interval at a parameter width from the "
     "receiver's bounds): keeping the receiver's stride requires a dominating no-wrap fact, and claiming a single value "
@@ -1738,4 +1756,4 @@ def c21_narrow(R):
                     f"dominating lower_bound <= upper_bound fact: a wrapped interval whose bounds are both small still "
                     f"contains values above the mask",
                 )
-    R.need(n >= 4, f"only {n} truncation shortcuts found")
+    R.need(n >= 2, f"only {n} truncation shortcuts found")
